@@ -103,10 +103,11 @@ let validate_line (line : string) : string =
             ((has_arp && not mac), List.map (fun t -> List.assoc (base t) protos) names))
           (List.tl parts)
       in
+      let slack = ref 0 in
       let mk late =
         { v_napps = nat_of_int !napps; v_machines = machines;
           v_timeout = (if tmo >= 0 then Some (n_of_int (tmo * 1_000_000)) else None);
-          v_paused = (flavor = 0); v_builtin_sts = !sts; v_late_seen = late }
+          v_paused = (flavor = 0); v_slack = n_of_int !slack; v_builtin_sts = !sts; v_late_seen = late }
       in
       let show = function Accept -> "ACCEPT" | Reject w ->
         let k = let rec f = function O -> 0 | S x -> 1 + f x in f w in
@@ -139,6 +140,7 @@ let validate_line (line : string) : string =
                   | 's' -> Some OSent
                   | 'w' -> let s, tm = st_at (after_colon t) in Some (OSeen (s, tm))
                   | 'W' -> late := Some (parse_status (after_colon t)); None
+                  | 'Z' -> slack := int_of_string (after_colon t); None
                   | _ -> failwith ("event " ^ t))
               rest
           in
